@@ -104,9 +104,7 @@ def run(cx):
     for m in mods + [init]:
         cx.consulted(m)
     cx.explanation = (
-        "who-may-import / who-may-call rules over every function of transpile/ (all of them are reachable from "
-        "parse()/emit()), allow-list analysis of the constant evaluator's arms and tables, raise-type and "
-        "exception-guard discipline, module-state inventory; termination time and implicit exception types are not decided"
+        "who-may-import / who-may-call rules over every function of transpile/; allow-list analysis of the constant evaluator's scope (helpers and dispatch tables followed, computed tables judged by their evaluated values) plus hostile expressions refused by evaluation; raise-type and exception-guard discipline; resolvers on unrepresentable literals, tuple arity and the cost guard (powers/shifts up to 10**10**8 with recording operators) by evaluation; regex structure analysis; module-state inventory. Termination time in general and implicit exception types elsewhere are not decided."
     )
     # ---- C11-IMPORTS -------------------------------------------------------------------------
     r = cx.rule("C11-IMPORTS", "transpile/*.py import only ast, operator, re, typing, dataclasses, __future__ and siblings", floor=5)
